@@ -146,6 +146,19 @@ Theorem C19_wrapped_radix_check_refuted : exists r,
 Proof. exact wrapped_radix_check_refuted. Qed.
 Print Assumptions C19_wrapped_radix_check_refuted.
 
+(* in / instanceof on non-objects: for every kind of left operand (primitive,
+   objects whose toString/valueOf log, return or throw) and right operand
+   (primitive, plain object, function, function with a non-object prototype)
+   otto raises the TypeError of 11.8.7 / 11.8.6 / 15.3.5.3 exactly when ES5 does
+   and converts exactly what ES5 converts before it (finite domain: 2 x 5 x 4) *)
+Theorem C19_in_instanceof_order : forall op l r, model_order op l r = spec_order op l r.
+Proof. exact order_as_es5. Qed.
+Print Assumptions C19_in_instanceof_order.
+
+Theorem C19_in_left_first_refuted : exists l r, in_left_first l r <> spec_order 0 l r.
+Proof. exact in_left_first_refuted. Qed.
+Print Assumptions C19_in_left_first_refuted.
+
 (* Error() of an uncaught error object is 15.11.4.4 of it as long as the script
    has not changed its name/message; any other thrown value gives its ToString *)
 Theorem C19_uncaught_text : forall n m s,
